@@ -158,17 +158,20 @@ Definition spec_ids (incl : bool) (a : darray) (ws : list want) : list Z :=
 (* ------------------------------------------------------------------------------------------ *)
 (** * From a tag to the wants *)
 
-(** the scaling the unit of entry k implies against the dimension: None = outside the statement *)
-Definition spec_scaling (unit : string) (d : dimd) : option F64 :=
+(** the scaling the unit of entry k implies against the dimension: [None] = outside the statement (the
+    units do not scale), [Some None] = no scaling (no unit involved), [Some (Some k)] = multiply by k *)
+Definition spec_scaling (unit : string) (d : dimd) : option (option F64) :=
   match d with
-  | DSet _ | DFrame _ => Some fone
+  | DSet _ | DFrame _ => Some None
   | DSampled _ _ du | DRange _ du =>
-      if is_none_unit unit then Some fone
+      if is_none_unit unit then Some None
       else match du with
            | None => None
-           | Some dus => match getSIScaling unit dus with Ok k => Some k | _ => None end
+           | Some dus => match getSIScaling unit dus with Ok k => Some (Some k) | _ => None end
            end
   end.
+
+Definition scaled (k : option F64) (p : F64) : F64 := match k with Some k => fmul p k | None => p end.
 
 (** unit of position entry k: the tag's k-th unit, "none" when the tag has no units at all, the
     dimension's own unit when the tag has fewer units than positions *)
@@ -186,9 +189,9 @@ Definition want_of (units : list string) (k : nat) (d : dimd) (p : option F64) (
       | None => WNoSpec
       | Some sc =>
           match e with
-          | None => WPoint (fmul p sc)
-          | Some e => if feq e fzero then WPoint (fmul p sc)
-                      else WRange (fmul p sc) (fmul (fadd p e) sc)
+          | None => WPoint (scaled sc p)
+          | Some e => if feq e fzero then WPoint (scaled sc p)
+                      else WRange (scaled sc p) (scaled sc (fadd p e))
           end
       end
   end.
@@ -202,8 +205,10 @@ Fixpoint wants_from (units : list string) (k : nat) (ds : list dimd) (pos : list
       want_of units k d p e :: wants_from units (S k) ds' (tl pos) (match ext with Some es => Some (tl es) | None => None end)
   end.
 
-(** a Tag's request on array a.  A tag whose extent has another List.length than its position is outside the statement. *)
+(** a Tag's request on array a.  A tag whose extent has another length than its position, or that carries
+    more units than positions, is outside the statement. *)
 Definition tag_wants (t : tag) (a : darray) : list want :=
+  if zlen (t_pos t) <? zlen (t_units t) then map (fun _ => WNoSpec) (a_dims a) else
   match t_ext t with
   | [] => wants_from (t_units t) 0 (a_dims a) (t_pos t) None
   | es => if zlen es =? zlen (t_pos t) then wants_from (t_units t) 0 (a_dims a) (t_pos t) (Some es)
@@ -262,12 +267,12 @@ Fixpoint ascending (l : list F64) : bool :=
 Definition P52 : Z := 4503599627370496.
 
 Definition dim_dom (d : dimd) (shape_d : Z) : bool :=
-  (1 <=? shape_d) && (shape_d <=? alen d) &&
+  (1 <=? shape_d) && (shape_d <=? alen d) && (shape_d <=? P52) &&
   match d with
   | DSampled dt off _ => fis_finite dt && flt fzero dt && fis_finite (offset_or_zero off) &&
                          fle dt (ofME 1 900) && fle (fabs (offset_or_zero off)) (ofME 1 1000) &&
                          ascending (map (coord d) (ziota (shape_d + 1)))
-  | DRange ticks _ => forallb fis_finite ticks && ascending ticks
+  | DRange ticks _ => forallb fis_finite ticks && ascending ticks && (zlen ticks <=? AXIS_MAX + 1)
   | DSet n | DFrame n => (0 <=? n) && (n <=? AXIS_MAX)
   end.
 
